@@ -97,7 +97,7 @@ def shapes():
     out = []
     releases = {"1seg": "1", "2seg": "1.2", "3seg": "1.2.3", "4seg": "1.2.3.4", "2seg-z": "1.0", "3seg-z": "1.2.0",
                 "2seg-9": "1.9", "2seg-10": "3.10", "3seg-99": "2.99.9"}
-    epochs = {"": "", "epoch": "1!", "epoch0": "0!"}
+    epochs = {"": "", "epoch": "1!", "epoch0": "0!", "v": "v", "V-epoch": "V2!"}
     suffixes = {
         "": "",
         "pre-a": "a1", "pre-b": "b2", "pre-rc": "rc3", "pre-c": "c1", "pre-alpha": "alpha1", "pre-beta": "beta2",
